@@ -44,7 +44,8 @@ HOSTILE = {
     'length': ['abc', '-3', '0', '1.5', '99999999999999999999', '5', '1',
                '9' * 4301, '1' + '0' * 5000,
                '-0', '007', '1e3', '9223372036854775807',
-               '9223372036854775808'],
+               '9223372036854775808', '18446744073709551615',
+               '18446744073709551616'],
     'indent': ['abc', '-3', '0', '1.5', '99999999999999999999', '5',
                '4294967296', 'x'],
     'encoding': ['nope', '5', 'utf-99', 'utf-16', 'utf-32', 'ascii', 'idna',
